@@ -46,6 +46,10 @@ CHECKS = {
   text="Solver-decided, bounded: with an ideal (collision-free) SHA-256 the real NewParams/CalcID give equal IDs for two parameter sets exactly when all ID-relevant fields are equal, for every single-field variant and for independent pairs within the shape bounds; Clone and Encode/Decode preserve ID and fields; NewParams refuses exactly the documented invalid parameters at the exact boundaries; machine-created states carry params.ID().",
   note="Trusted: go/ssa lowering, the interpreter (translator-validated per run), z3; hash idealisation (equal digest iff equal byte stream fed to the hasher by the real CalcID).",
   ref="DESIGN.md §3 C17"),
+ "C18": dict(
+  text="Engine/solver-decided, bounded: all histories of up to h relay operations and all operation-level interleavings of T goroutines x k operations (symbolic predicate verdicts) deliver every envelope exactly as the reference model of the statement prescribes (each matching subscriber once, else cache then first matching later subscriber once, else default handler once; never to a rejecting predicate; nothing lost or duplicated at quiescence), and every explored execution is free of data races under a happens-before detector; the Put/Put race on the cache (F18) found this way was confirmed by go test -race and repaired.",
+  note="Trusted: go/ssa lowering, interpreter with cooperative scheduler and vector-clock race detector (assertion outcomes translator-validated natively), z3; bounded threads, preemption bound 0.",
+  ref="DESIGN.md §3 C18, Appendix A.6"),
  "C19": dict(
   text="Solver-decided, bounded: for every cloneable type and shape within the bounds the clone equals the original (repository Equal and an independent leaf comparison), and after an arbitrary mutation (chosen by Choice over every mutable location, with symbolic deltas) applied to either side the other side is leaf-for-leaf what it was; covers State, Allocation, Balances, Params, Transaction, CloneSigs, StateMachine, ActionMachine, CloneSource, FromSource.",
   note="Trusted: go/ssa lowering, interpreter (its pointer/aliasing semantics are translator-validated natively on the same harness), z3.",
